@@ -549,4 +549,20 @@ Definition tokenize_lines (lines : list str) (indents0 : list N) (start_line sta
     else Err Guard
   end.
 
+(* clean line boundaries (C04): after which lines could a tokenizer be restarted with only the indentation stack?
+   One entry per line: Some indentation-stack when the state after that line is clean. *)
+Definition cleanb (s : st) : bool :=
+  (paren s =? 0) && is_nil (contstr s) && is_nil (fstack s) && new_line s && is_nil (addp s).
+Fixpoint resume_scan (s : st) (lines : list str) (first : bool) (start_col : N) : list (option (list N)) :=
+  match lines with
+  | [] => []
+  | l :: rest =>
+    match line_step s l first start_col with
+    | Err _ => []
+    | Ok (s', _) => (if cleanb s' then Some (indents s') else None) :: resume_scan s' rest false start_col
+    end
+  end.
+Definition resume_points (lines : list str) (indents0 : list N) (start_line start_col : N) (is_first : bool) : list (option (list N)) :=
+  resume_scan (mkSt 0 indents0 [] (0, 0) None true [] [] [] (start_line - 1) 0) lines is_first start_col.
+
 End Tokenizer.
